@@ -339,6 +339,15 @@ def check(tier, seed):
             cur = nxt
     if nontrivial == 0:
         raise MachineryDefect("no operation succeeded")
+    # --- frame obligations: extending builds new elements and never writes into the ones it was given (vf/aliascheck.py) -----------------
+    import inspect as _inspect
+    import py_gql.sdl.ast_type_builder as _tb
+    import py_gql.sdl.schema_from_ast as _sfa
+    from vf import aliascheck
+    _funcs = [("ASTTypeBuilder.%s" % n_, f_) for n_, f_ in vars(_tb.ASTTypeBuilder).items() if _inspect.isfunction(f_) and n_.startswith(("_extend", "extend"))]
+    _funcs += [("%s.%s" % (m_.__name__.split(".")[-1], n_), f_) for m_ in (_tb, _sfa) for n_, f_ in vars(m_).items()
+               if _inspect.isfunction(f_) and f_.__module__ == m_.__name__]
+    aliascheck.account(run, aliascheck.obligations(_funcs, "extend", "extending a schema changes its source, which is still in use"))
     # --- attribute-preservation obligations on every rebuild site (syntactic, per function, for all inputs) -------------------
     from vf import ctorcheck
     funcs = ctorcheck.rebuild_functions()
